@@ -208,10 +208,10 @@ def build(src):
     add("fv_data_c", r"constexpr const_pointer data\(\) const noexcept", "const elem *fv_data_c(%s)" % csfv, dflt="0")
     add("fv_replace_move", r"replace\(A& a, A&& b\)", "void fv_replace_move(%s, elem *a, elem b)" % sfv, rules=refparam("a"))
     add("fv_replace_copy", r"replace\(A& a, const A& b\)", "void fv_replace_copy(%s, elem *a, elem b)" % sfv, rules=refparam("a"))
-    u.add(F("fv_std_get", REL, r"T& get\(nitro::lang::fixed_vector<T>& c\) noexcept", "elem *fv_std_get(size_t I, struct fixed_vector *c)",
+    u.add(F("fv_std_get", REL, r"T& get\(nitro::lang::fixed_vector<T>& c\)", "elem *fv_std_get(size_t I, struct fixed_vector *c)",
             P, dflt="0", ret_ref=True,
-            rules=[Rule("D6.receiver", r"\bc\.at\(I\)", "*fv_at(c, I)")],
-            note="declared noexcept: an exception raised by at() would call std::terminate"))
+            rules=[Rule("D6.receiver", r"return\s+c\.at\(I\);", "elem *nitro_r = fv_at(c, I); NITRO_PROPAGATE; return *nitro_r;")],
+            must_fire=["D6.receiver"]))
 
     u.stubs = ["elem_assign"]
     u.trusted = [
